@@ -818,6 +818,44 @@ class JSFloat32Array(JSTypedArray):
         return struct.pack("<f", float(value))
 
 
+_KEEP = object()
+
+
+def python_to_js(value: Any, unknown: Any = _KEEP) -> "JSValue":
+    """The JavaScript value a Python value denotes: None -> null, list/tuple -> array,
+    dict -> object; JavaScript values and callables are passed through.  Anything else
+    becomes `unknown` (by default it is passed through unchanged)."""
+    if value is None:
+        return NULL
+    if isinstance(value, (bool, int, float, str)) or value is UNDEFINED:
+        return value
+    if isinstance(value, (JSObject, JSFunction, JSBoundMethod)):
+        return value
+    if isinstance(value, (list, tuple)):
+        arr = JSArray()
+        for elem in value:
+            arr.push(python_to_js(elem, unknown))
+        return arr
+    if isinstance(value, dict):
+        obj = JSObject()
+        for k, v in value.items():
+            obj.set(str(k), python_to_js(v, unknown))
+        return obj
+    if callable(value) or unknown is _KEEP:
+        return value
+    return unknown
+
+
+def native_result(value: Any) -> "JSValue":
+    """What a native (Python) function's return value is inside the script: None is
+    undefined, lists and dicts become arrays and objects."""
+    if value is None:
+        return UNDEFINED
+    if isinstance(value, (list, tuple, dict)):
+        return python_to_js(value)
+    return value
+
+
 class JSArrayBuffer(JSObject):
     """JavaScript ArrayBuffer - raw binary data buffer."""
 
